@@ -17,6 +17,10 @@ def observe(ds, n_hint):
     r = {'iter': run_stream(lambda: ds)}
     r['len'] = outcome(lambda: len(ds))
     r['keys'] = outcome(lambda: list(ds.keys()))
+    if 'ok' in r['keys']:
+        # the keyed views: items() pairs and lookups of the dataset's own keys
+        r['items'] = run_stream(lambda: ds.items())
+        r['getkeys'] = [outcome(lambda: ds[k]) for k in r['keys']['ok']]
     idx = outcome(lambda: bool(ds.indexable), lambda b: b)
     if idx.get('ok'):
         r['gets'] = [outcome(lambda: ds[i]) for i in range(-n_hint - 1, n_hint + 1)]
@@ -61,7 +65,7 @@ def laws(rng):
         ds_b = impl.build(p)
         vals = list(ds)
         n = len(vals)
-        F_ALL = ('iter', 'len', 'keys', 'gets')
+        F_ALL = ('iter', 'len', 'keys', 'gets', 'items', 'getkeys')
 
         def law(name, lhs, rhs, fields=F_ALL, detail=None):
             try:
@@ -144,7 +148,7 @@ def run(rep):
         'evaluations': n * 13, 'programs': n, 'disagreements_checked': n * 13, 'disagreements_found': len(fails),
         'distinct_nontrivial': len(distinct),
         'rule': '13 laws instantiated on random error-free indexable base pipelines (sources, slices, sorts, one-time shuffles, caches, copies) with distinct examples and random parameters; '
-                'both sides are built on the implementation and compared on iteration, len, keys and ds[i] for all i in [-n-1, n+1); distinct non-trivial = distinct base pipeline',
+                'both sides are built on the implementation and compared on iteration, len, keys, items(), ds[key] for every key and ds[i] for all i in [-n-1, n+1); distinct non-trivial = distinct base pipeline',
         'samples': [{'law': 'map_slice', 'lhs': 'ds.map(f)[s1]', 'rhs': 'ds[s1].map(f)'}, {'law': 'concat_split_id', 'lhs': 'concatenate(*ds.split(k))', 'rhs': 'ds'}],
         'distribution': {'base_stage_kinds': dist}, 'exhaustive': False})
     return rep
